@@ -43,7 +43,27 @@ VIll(r) ==
      ELSE IF GmBad(r, post, SlotOf) THEN "get-metric"
      ELSE "ok"
 
-Verdict(r) == CASE r.ev = "SetMetrics" -> VStep(r) [] r.ev = "SetMetricsIll" -> VIll(r) [] OTHER -> "unknown-event"
+\* a constructor given several `metrics=` entries (the same axis set may be spelt in two ways: a string or a
+\* one-tuple, a tuple or its permutation) registers them one after another, in the order of the mapping, without
+\* overwrite: a refusal anywhere refuses the construction, otherwise the registry is the one the sequence gives
+RECURSIVE CtorFold(_, _, _, _)
+CtorFold(reg, SlotOf, calls, j) ==
+  IF j > Len(calls) THEN [reg |-> reg, refused |-> FALSE]
+  ELSE LET st == SetMetricsSpec(reg, SlotOf, calls[j].k, calls[j].vs, FALSE) IN
+       IF st.refused THEN st ELSE CtorFold(st.reg, SlotOf, calls, j + 1)
+VCtor(r) ==
+  LET SlotOf == SlotFn(r)
+      post == RegFn(r, r.post)
+      e == CtorFold(RegFn(r, <<>>), SlotOf, r.calls, 1)
+  IN IF r.out.k = "error" THEN "raised-unexpected-exception"
+     ELSE IF e.refused # (r.out.k = "refused") THEN (IF e.refused THEN "accepted-into-occupied-slot" ELSE "refused-free-slot")
+     ELSE IF e.refused THEN "ok"
+     ELSE IF ~OneVarPerSlot(post, SlotOf) THEN "two-variables-in-one-slot"
+     ELSE IF AsSets(post) # AsSets(e.reg) THEN "registry"
+     ELSE IF GmBad(r, post, SlotOf) THEN "get-metric"
+     ELSE "ok"
+
+Verdict(r) == CASE r.ev = "SetMetrics" -> VStep(r) [] r.ev = "CtorBatch" -> VCtor(r) [] r.ev = "SetMetricsIll" -> VIll(r) [] OTHER -> "unknown-event"
 Init == i = 1
 Next == /\ i <= Len(Tr)
         /\ LET v == Verdict(Tr[i]) IN IF v = "ok" THEN TRUE ELSE PrintT(<<"V", Tr[i].id, v>>)
